@@ -1,0 +1,5 @@
+//go:build !verif
+
+package client
+
+func verifEvent(_ string, _ ...any) {}
